@@ -40,3 +40,16 @@ func (s *OptSource) Sequential() eventbus.SubscribeOption {
 	}
 	return eventbus.Sequential()
 }
+
+// Arrange returns the options in reverse order when rev is set: the order in
+// which options are passed to Subscribe is not part of the contract.
+func Arrange(opts []eventbus.SubscribeOption, rev bool) []eventbus.SubscribeOption {
+	if !rev {
+		return opts
+	}
+	out := make([]eventbus.SubscribeOption, 0, len(opts))
+	for i := len(opts) - 1; i >= 0; i-- {
+		out = append(out, opts[i])
+	}
+	return out
+}
